@@ -82,7 +82,20 @@ def substitutable(e: ast.AST, extra: Iterable[str] = ()) -> bool:
             return False
         if isinstance(n, (ast.Await, ast.Yield, ast.YieldFrom, ast.NamedExpr, ast.ListComp, ast.SetComp, ast.DictComp, ast.GeneratorExp, ast.Lambda)):
             return False
+    if isinstance(e, (ast.List, ast.Dict, ast.Set)):
+        return False  # a fresh mutable object: its identity matters
     return True
+
+
+def never_none(e: ast.AST) -> bool:
+    """The expression cannot evaluate to None: a constructor call, a display, an f-string, a non-None constant."""
+    if isinstance(e, ast.Call):
+        f = e.func
+        nm = f.id if isinstance(f, ast.Name) else (f.attr if isinstance(f, ast.Attribute) else "")
+        return nm[:1].isupper() or nm in ("list", "dict", "set", "tuple", "str", "int", "float", "frozenset", "sorted", "len", "iter", "zip", "map", "filter", "enumerate", "range", "repr", "bool")
+    if isinstance(e, (ast.List, ast.Tuple, ast.Dict, ast.Set, ast.JoinedStr, ast.ListComp, ast.SetComp, ast.DictComp, ast.GeneratorExp, ast.Lambda)):
+        return True
+    return isinstance(e, ast.Constant) and e.value is not None
 
 
 def canon(e: ast.AST) -> Tuple[str, bool]:
@@ -131,9 +144,10 @@ def literal(v: Any) -> Optional[ast.expr]:
 
 
 class _Fold(ast.NodeTransformer):
-    def __init__(self, fold, bound: Set[str]):
+    def __init__(self, fold, bound: Set[str], records: Optional[Dict[str, List[str]]] = None):
         self.fold = fold
         self.bound = bound
+        self.records = records or {}
 
     def _try(self, n):
         try:
@@ -165,6 +179,16 @@ class _Fold(ast.NodeTransformer):
         n = self.generic_visit(n)
         if isinstance(n.func, ast.Name) and n.func.id == "len" and len(n.args) == 1 and isinstance(n.args[0], (ast.Tuple, ast.List)) and not n.keywords:
             return ast.Constant(value=len(n.args[0].elts))
+        if isinstance(n.func, ast.Name) and n.func.id in self.records and n.func.id not in self.bound and not any(isinstance(a, ast.Starred) for a in n.args) \
+                and not any(k.arg is None for k in n.keywords):
+            # record constructors: positional arguments named by field order, keywords in field order
+            fields = self.records[n.func.id]
+            if len(n.args) <= len(fields):
+                kws = {f: a for f, a in zip(fields, n.args)}
+                for k in n.keywords:
+                    kws[k.arg] = k.value
+                n.args = []
+                n.keywords = [ast.keyword(arg=f, value=kws[f]) for f in fields if f in kws] + [ast.keyword(arg=f, value=v) for f, v in kws.items() if f not in fields]
         return n
 
 
@@ -380,7 +404,7 @@ def _simplify(e: ast.AST) -> ast.AST:
 
 class Summariser:
     def __init__(self, fn: ast.FunctionDef, follow_exc: bool = False, nonempty: Optional[Callable[[ast.For, Dict[str, ast.AST]], bool]] = None, limit: int = 20000,
-                 opaque: Optional[Callable[[ast.AST], bool]] = None, stop_at_raise: bool = True, keep: Iterable[str] = (), fold=None, pure_calls: Iterable[str] = ()):
+                 opaque: Optional[Callable[[ast.AST], bool]] = None, stop_at_raise: bool = True, keep: Iterable[str] = (), fold=None, pure_calls: Iterable[str] = (), records: Optional[Dict[str, List[str]]] = None):
         self.fn = lowered(fn)
         self.cfg = CFG(self.fn)
         self.follow_exc = follow_exc
@@ -390,6 +414,7 @@ class Summariser:
         self.stop_at_raise = stop_at_raise
         self.keep = set(keep)  # locals never substituted (kept by name)
         self.pure_calls = set(pure_calls)  # constructors of immutable values that may be substituted
+        self.records = records or {}
         self.fold = fold  # expr -> constant value | None (module / class constants)
         self.bound = {a.arg for a in fn.args.posonlyargs + fn.args.args + fn.args.kwonlyargs} | {n.id for n in ast.walk(fn) if isinstance(n, ast.Name) and isinstance(n.ctx, ast.Store)}
         if fn.args.vararg:
@@ -405,8 +430,8 @@ class Summariser:
 
     def sub(self, e: Optional[ast.AST], env: Dict[str, ast.AST]) -> Optional[ast.AST]:
         r = subst(e, env)
-        if r is not None and self.fold is not None:
-            r = _Fold(self.fold, self.bound).visit(r)
+        if r is not None and (self.fold is not None or self.records):
+            r = _Fold(self.fold or (lambda e: None), self.bound, self.records).visit(r)
         return r
 
     # -- machinery -------------------------------------------------------------
@@ -434,6 +459,14 @@ class Summariser:
                 killed = env.pop("%killed", None)
                 if killed:
                     truth = {k: v for k, v in truth.items() if not (self._mentions(k) & killed)}
+                nn = env.pop("%facts", None)
+                if nn:
+                    truth = dict(truth)
+                    ep = env.get("%epochs", {})
+                    for nm, isnone in nn.items():
+                        k0 = f"None is {nm}"
+                        e_ = ep.get(nm, 0)
+                        truth[f"{k0}@{e_}" if e_ > 0 else k0] = isnone
             elif node.kind == "return":
                 effects = effects + [Eff("return", None, self.sub(node.ast.value, env), node.line, lstack, node.ast)]
             elif node.kind == "raise_stmt":
@@ -499,6 +532,8 @@ class Summariser:
                     for s, lab in choices:
                         if lab == "iter":
                             e2 = dict(env)
+                            guarded = _break_guarded(node.ast)
+                            e2[f"%pre{n}"] = {nm: env[nm] for nm in guarded if nm in env}
                             self._opaque(e2, body_names)
                             t2 = {k: v for k, v in truth.items() if not (self._mentions(k) & body_names)}
                             yield from self._walk(s, e2, t2, hist, ld, eff_iter, lstack + (node.line,))
@@ -508,6 +543,9 @@ class Summariser:
                 else:
                     env = dict(env)
                     self._opaque(env, body_names)
+                    # a local whose every assignment in the body is followed by leaving the loop still has its pre-loop value here
+                    for nm, v in env.pop(f"%pre{n}", {}).items():
+                        env[nm] = v
                     truth = {k: v for k, v in truth.items() if not (self._mentions(k) & body_names)}
                     lstack = tuple(x for x in lstack if x != node.line)
                     succ = [(s, lab) for s, lab in succ if lab == "exhaust"]
@@ -631,8 +669,11 @@ class Summariser:
     def _bind(self, env: Dict[str, ast.AST], name: str, value: ast.AST) -> None:
         if name in self.keep or not substitutable(value, self.pure_calls):
             self._opaque(env, [name])
-            env.setdefault("%killed", set())
-            env["%killed"] = set(env["%killed"]) | {name}
+            env["%killed"] = set(env.get("%killed", ())) | {name}
+            if never_none(value):
+                facts = dict(env.get("%facts", {}))
+                facts[name] = False  # "name is None" is false
+                env["%facts"] = facts
         else:
             env[name] = value
 
@@ -700,6 +741,43 @@ class Summariser:
         return env, effects
 
 
+def _break_guarded(loop: ast.AST) -> Set[str]:
+    """Locals assigned in the loop body only in blocks that end by leaving the loop (break / return / raise)."""
+    ok: Dict[str, bool] = {}
+
+    def block(stmts: List[ast.stmt], leaves: bool, nested: bool) -> None:
+        ends = bool(stmts) and isinstance(stmts[-1], (ast.Break, ast.Return, ast.Raise)) and not nested
+        if bool(stmts) and isinstance(stmts[-1], (ast.Return, ast.Raise)):
+            ends = True
+        for st in stmts:
+            names: Set[str] = set()
+            if isinstance(st, ast.Assign):
+                for t in st.targets:
+                    names |= set(_names(t)) if isinstance(t, (ast.Name, ast.Tuple, ast.List)) else set()
+            elif isinstance(st, (ast.AugAssign, ast.AnnAssign)) and isinstance(st.target, ast.Name):
+                names.add(st.target.id)
+            elif isinstance(st, (ast.For, ast.AsyncFor)):
+                names |= set(_names(st.target))
+            elif isinstance(st, (ast.With, ast.AsyncWith)):
+                for i in st.items:
+                    if i.optional_vars is not None:
+                        names |= set(_names(i.optional_vars))
+            for nm in names:
+                ok[nm] = ok.get(nm, True) and (ends or leaves)
+            if isinstance(st, (ast.FunctionDef, ast.AsyncFunctionDef, ast.ClassDef)):
+                continue
+            inner_nested = nested or isinstance(st, (ast.For, ast.AsyncFor, ast.While))
+            for fld in ("body", "orelse", "finalbody"):
+                sub = getattr(st, fld, None)
+                if isinstance(sub, list) and sub and isinstance(sub[0], ast.stmt):
+                    block(sub, (ends or leaves) and not isinstance(st, (ast.For, ast.AsyncFor, ast.While)), inner_nested)
+            for h in getattr(st, "handlers", []):
+                block(h.body, ends or leaves, inner_nested)
+
+    block(loop.body, False, False)
+    return {nm for nm, v in ok.items() if v}
+
+
 def _as_load(t: ast.AST) -> ast.AST:
     t = copy.deepcopy(t)
     for n in ast.walk(t):
@@ -720,3 +798,311 @@ def summaries(ctx, fi: FunctionInfo, **kw) -> List[PathSummary]:
     if k not in cache:
         cache[k] = Summariser(fi.node, **kw).paths()
     return cache[k]
+
+
+# ---------------------------------------------------------------------------
+# lowering of reductions over iterables into loops (on the private copy)
+
+_RED_FUNCS = {"sum", "any", "all", "next", "list", "len", "reduce", "set", "tuple_"}
+
+
+def _is_bool_expr(e: ast.AST) -> bool:
+    return isinstance(e, (ast.Compare, ast.BoolOp)) or (isinstance(e, ast.UnaryOp) and isinstance(e.op, ast.Not)) or \
+        (isinstance(e, ast.Call) and isinstance(e.func, ast.Name) and e.func.id in ("isinstance", "bool", "any", "all", "callable", "hasattr"))
+
+
+def _as_genexp(e: ast.AST) -> Optional[ast.GeneratorExp]:
+    """A generator-like view of: genexp, list comprehension, filter(lambda, it), map(lambda, it), list(<those>)."""
+    if isinstance(e, ast.GeneratorExp):
+        return e
+    if isinstance(e, ast.ListComp):
+        return ast.GeneratorExp(elt=e.elt, generators=e.generators)
+    if isinstance(e, ast.Call) and isinstance(e.func, ast.Name) and not e.keywords:
+        if e.func.id in ("list", "iter", "tuple") and len(e.args) == 1:
+            return _as_genexp(e.args[0])
+        if e.func.id == "filter" and len(e.args) == 2 and isinstance(e.args[0], ast.Lambda) and len(e.args[0].args.args) == 1:
+            v = e.args[0].args.args[0].arg
+            inner = _as_genexp(e.args[1])
+            if inner is not None and isinstance(inner.elt, ast.Name) and len(inner.generators) == 1 and isinstance(inner.generators[0].target, ast.Name) \
+                    and inner.elt.id == inner.generators[0].target.id:
+                # filter over a filter/plain generator of the elements themselves
+                g = copy.deepcopy(inner.generators[0])
+                cond = _rename(copy.deepcopy(e.args[0].body), {v: g.target.id})
+                g.ifs = list(g.ifs) + [cond]
+                return ast.GeneratorExp(elt=ast.Name(id=g.target.id, ctx=ast.Load()), generators=[g])
+            if inner is None:
+                return ast.GeneratorExp(elt=ast.Name(id=v, ctx=ast.Load()),
+                                        generators=[ast.comprehension(target=ast.Name(id=v, ctx=ast.Store()), iter=e.args[1], ifs=[e.args[0].body], is_async=0)])
+        if e.func.id == "map" and len(e.args) == 2 and isinstance(e.args[0], ast.Lambda) and len(e.args[0].args.args) == 1:
+            v = e.args[0].args.args[0].arg
+            inner = _as_genexp(e.args[1])
+            if inner is None:
+                return ast.GeneratorExp(elt=e.args[0].body, generators=[ast.comprehension(target=ast.Name(id=v, ctx=ast.Store()), iter=e.args[1], ifs=[], is_async=0)])
+            if isinstance(inner.elt, ast.Name) and len(inner.generators) == 1 and isinstance(inner.generators[0].target, ast.Name) and inner.elt.id == inner.generators[0].target.id:
+                g = copy.deepcopy(inner.generators[0])
+                return ast.GeneratorExp(elt=_rename(copy.deepcopy(e.args[0].body), {v: g.target.id}), generators=[g])
+    return None
+
+
+def _rename(e: ast.AST, m: Dict[str, str]) -> ast.AST:
+    for n in ast.walk(e):
+        if isinstance(n, ast.Name) and n.id in m:
+            n.id = m[n.id]
+    return e
+
+
+def _reduction(e: ast.AST) -> Optional[Tuple[str, ast.GeneratorExp, Dict[str, Any]]]:
+    """(kind, generator, extras) when *e* is a reduction over a generator-like expression."""
+    if isinstance(e, (ast.ListComp,)):
+        return "collect", _as_genexp(e), {}
+    if isinstance(e, ast.SetComp):
+        return "collect_set", ast.GeneratorExp(elt=e.elt, generators=e.generators), {}
+    if not (isinstance(e, ast.Call) and isinstance(e.func, ast.Name)):
+        return None
+    f = e.func.id
+    if f in ("sum", "any", "all") and len(e.args) == 1 and not e.keywords:
+        g = _as_genexp(e.args[0])
+        if g is not None:
+            return f, g, {}
+    if f == "next" and len(e.args) == 2 and not e.keywords:
+        g = _as_genexp(e.args[0])
+        if g is not None:
+            return "first", g, {"default": e.args[1]}
+    if f == "len" and len(e.args) == 1 and not e.keywords:
+        g = _as_genexp(e.args[0])
+        if g is not None and not isinstance(e.args[0], ast.GeneratorExp):
+            return "count", g, {}
+    if f == "list" and len(e.args) == 1 and not e.keywords:
+        g = _as_genexp(e.args[0])
+        if g is not None:
+            return "collect", g, {}
+    if f == "reduce" and len(e.args) == 3 and not e.keywords and isinstance(e.args[0], ast.Lambda) and len(e.args[0].args.args) == 2:
+        g = _as_genexp(e.args[1])
+        if g is None:
+            v = e.args[0].args.args[1].arg
+            g = ast.GeneratorExp(elt=ast.Name(id=v, ctx=ast.Load()), generators=[ast.comprehension(target=ast.Name(id=v, ctx=ast.Store()), iter=e.args[1], ifs=[], is_async=0)])
+        return "fold", g, {"lambda": e.args[0], "init": e.args[2]}
+    return None
+
+
+class _Reducer:
+    def __init__(self, fn: ast.FunctionDef):
+        self.n = 0
+        self.taken = {x.id for x in ast.walk(fn) if isinstance(x, ast.Name)} | {a.arg for a in ast.walk(fn) if isinstance(a, ast.arg)}
+
+    def fresh(self, base: str) -> str:
+        while True:
+            self.n += 1
+            nm = f"_{base}{self.n}"
+            if nm not in self.taken:
+                self.taken.add(nm)
+                return nm
+
+    # -- blocks --------------------------------------------------------------
+    def block(self, stmts: List[ast.stmt]) -> List[ast.stmt]:
+        out: List[ast.stmt] = []
+        for st in stmts:
+            out.extend(self.stmt(st))
+        return out
+
+    def stmt(self, st: ast.stmt) -> List[ast.stmt]:
+        if isinstance(st, (ast.FunctionDef, ast.AsyncFunctionDef, ast.ClassDef)):
+            return [st]
+        if isinstance(st, ast.If):
+            sp = self._split_boolop_if(st)
+            if sp is not None:
+                return self.block(sp)
+            pre, test = self._hoist(st.test, st)
+            st.test = test
+            st.body = self.block(st.body)
+            st.orelse = self.block(st.orelse)
+            return self.block(pre) + [st] if pre else [st]
+        if isinstance(st, (ast.For, ast.AsyncFor)):
+            g = _as_genexp(st.iter) if not isinstance(st.iter, (ast.Name, ast.Attribute)) else None
+            if g is not None and not st.orelse and isinstance(st.iter, (ast.GeneratorExp, ast.Call)) and not (isinstance(st.iter, ast.Call) and st.iter.func.id in ("list", "tuple")):
+                # for t in (E for v in IT if C): body   ->   for v in IT: if C: t = E; body
+                inner = [ast.copy_location(ast.Assign(targets=[st.target], value=g.elt), st)] + list(st.body)
+                if isinstance(g.elt, ast.Name) and isinstance(st.target, ast.Name) and g.elt.id == st.target.id:
+                    inner = list(st.body)
+                return self.block(self._loops(g, inner, st))
+            st.body = self.block(st.body)
+            st.orelse = self.block(st.orelse)
+            return [st]
+        if isinstance(st, ast.While):
+            st.body = self.block(st.body)
+            st.orelse = self.block(st.orelse)
+            return [st]
+        if isinstance(st, (ast.With, ast.AsyncWith)):
+            st.body = self.block(st.body)
+            return [st]
+        if isinstance(st, ast.Try):
+            st.body = self.block(st.body)
+            st.orelse = self.block(st.orelse)
+            st.finalbody = self.block(st.finalbody)
+            for h in st.handlers:
+                h.body = self.block(h.body)
+            return [st]
+        if type(st).__name__ == "Once":
+            st.body = self.block(st.body)
+            return [st]
+        if isinstance(st, ast.Expr) and isinstance(st.value, ast.YieldFrom):
+            g = _as_genexp(st.value.value)
+            if g is not None:
+                y = ast.copy_location(ast.Expr(value=ast.Yield(value=g.elt)), st)
+                return self.block(self._loops(g, [y], st))
+            return [st]
+        if isinstance(st, (ast.Assign, ast.AnnAssign, ast.AugAssign, ast.Return, ast.Expr)):
+            v = getattr(st, "value", None)
+            if v is None:
+                return [st]
+            red = _reduction(v)
+            if red is not None and isinstance(st, ast.Assign) and len(st.targets) == 1 and isinstance(st.targets[0], ast.Name):
+                return self.block(self._expand(st.targets[0].id, red, st))
+            if red is not None and isinstance(st, ast.AnnAssign) and isinstance(st.target, ast.Name):
+                return self.block(self._expand(st.target.id, red, st))
+            if red is not None and isinstance(st, ast.Return):
+                t = self.fresh("r")
+                ret = ast.copy_location(ast.Return(value=ast.Name(id=t, ctx=ast.Load())), st)
+                return self.block(self._expand(t, red, st)) + [ret]
+            pre, nv = self._hoist(v, st)
+            if pre:
+                st.value = nv
+                return self.block(pre) + [st]
+            return [st]
+        return [st]
+
+    # -- pieces ----------------------------------------------------------------
+    def _contains_reduction(self, e: ast.AST) -> bool:
+        return any(_reduction(n) is not None for n in ast.walk(e))
+
+    def _split_boolop_if(self, st: ast.If) -> Optional[List[ast.stmt]]:
+        t = st.test
+        if isinstance(t, ast.UnaryOp) and isinstance(t.op, ast.Not) and self._contains_reduction(t.operand) and st.orelse is not None:
+            new = ast.copy_location(ast.If(test=t.operand, body=st.orelse or [ast.copy_location(ast.Pass(), st)], orelse=st.body), st)
+            return [new]
+        if isinstance(t, ast.BoolOp) and len(t.values) >= 2 and any(self._contains_reduction(v) for v in t.values[1:]):
+            first = t.values[0]
+            rest = t.values[1] if len(t.values) == 2 else ast.BoolOp(op=t.op, values=t.values[1:])
+            if isinstance(t.op, ast.And):
+                inner = ast.copy_location(ast.If(test=rest, body=st.body, orelse=copy.deepcopy(st.orelse)), st)
+                return [ast.copy_location(ast.If(test=first, body=[inner], orelse=st.orelse), st)]
+            inner = ast.copy_location(ast.If(test=rest, body=copy.deepcopy(st.body), orelse=st.orelse), st)
+            return [ast.copy_location(ast.If(test=first, body=st.body, orelse=[inner]), st)]
+        return None
+
+    def _hoist(self, e: ast.AST, at: ast.stmt) -> Tuple[List[ast.stmt], ast.AST]:
+        """The first-evaluated reduction inside *e* becomes a temporary assigned just before the statement."""
+        from .normalize import _eval_order, _BLOCK
+        if _reduction(e) is not None:
+            t = self.fresh("t")
+            pre = ast.copy_location(ast.Assign(targets=[ast.Name(id=t, ctx=ast.Store())], value=e), at)
+            return [pre], ast.copy_location(ast.Name(id=t, ctx=ast.Load()), e)
+        target = None
+        for n in _eval_order(e):
+            if n is _BLOCK:
+                break
+            if _reduction(n) is not None:
+                target = n
+                break
+            if isinstance(n, ast.Call) and not is_pure(n) and not any(_reduction(x) is not None for x in ast.walk(n)):
+                break
+        if target is None:
+            # list comprehensions are not calls: look for one evaluated unconditionally at the top level of the expression
+            for n in ast.walk(e):
+                if isinstance(n, (ast.ListComp,)) and _reduction(n) is not None and not any(isinstance(p_, (ast.Lambda, ast.IfExp, ast.BoolOp, ast.GeneratorExp, ast.ListComp)) and n in ast.walk(p_) and p_ is not n for p_ in ast.walk(e)):
+                    target = n
+                    break
+        if target is None:
+            return [], e
+        t = self.fresh("t")
+
+        class Rep(ast.NodeTransformer):
+            def visit(self, node):
+                if node is target:
+                    return ast.copy_location(ast.Name(id=t, ctx=ast.Load()), node)
+                return super().visit(node)
+
+        pre = ast.copy_location(ast.Assign(targets=[ast.Name(id=t, ctx=ast.Store())], value=target), at)
+        return [pre], Rep().visit(e)
+
+    def _loops(self, g: ast.GeneratorExp, innermost: List[ast.stmt], at: ast.AST) -> List[ast.stmt]:
+        """for/if nest of the generators around *innermost*."""
+        body = innermost
+        for comp in reversed(g.generators):
+            for c in reversed(comp.ifs):
+                body = [ast.copy_location(ast.If(test=c, body=body, orelse=[]), at)]
+            body = [ast.copy_location(ast.For(target=comp.target, iter=comp.iter, body=body, orelse=[], type_comment=None), at)]
+        for x in body:
+            ast.fix_missing_locations(x)
+        return body
+
+    def _expand(self, name: str, red, at: ast.stmt) -> List[ast.stmt]:
+        kind, g, extra = red
+        g = copy.deepcopy(g)
+        # comprehension variables become real locals: keep them apart from the function's own
+        ren = {}
+        for comp in g.generators:
+            for nm in _names(comp.target):
+                if nm in self.taken and nm != name:
+                    ren[nm] = nm  # same spelling is fine when it is only this comprehension's (checked below)
+        load = lambda: ast.Name(id=name, ctx=ast.Load())
+        store = lambda: ast.Name(id=name, ctx=ast.Store())
+
+        def assign(v):
+            return ast.copy_location(ast.Assign(targets=[store()], value=v), at)
+
+        brk = ast.copy_location(ast.Break(), at)
+        single = len(g.generators) == 1
+        if kind == "sum":
+            if _is_bool_expr(g.elt) or (isinstance(g.elt, ast.Constant) and g.elt.value == 1):
+                inc = ast.copy_location(ast.AugAssign(target=store(), op=ast.Add(), value=ast.Constant(value=1)), at)
+                inner = [inc] if isinstance(g.elt, ast.Constant) else [ast.copy_location(ast.If(test=g.elt, body=[inc], orelse=[]), at)]
+            else:
+                inner = [ast.copy_location(ast.AugAssign(target=store(), op=ast.Add(), value=g.elt), at)]
+            return [assign(ast.Constant(value=0))] + self._loops(g, inner, at)
+        if kind == "count":
+            inc = ast.copy_location(ast.AugAssign(target=store(), op=ast.Add(), value=ast.Constant(value=1)), at)
+            return [assign(ast.Constant(value=0))] + self._loops(g, [inc], at)
+        if kind in ("any", "all") and single:
+            hit = ast.Constant(value=(kind == "any"))
+            test = g.elt if kind == "any" else ast.UnaryOp(op=ast.Not(), operand=g.elt)
+            inner = [ast.copy_location(ast.If(test=test, body=[assign(hit), brk], orelse=[]), at)]
+            return [assign(ast.Constant(value=(kind != "any")))] + self._loops(g, inner, at)
+        if kind == "first" and single:
+            return [assign(extra["default"])] + self._loops(g, [assign(g.elt), brk], at)
+        if kind == "collect":
+            app = ast.copy_location(ast.Expr(value=ast.Call(func=ast.Attribute(value=load(), attr="append", ctx=ast.Load()), args=[g.elt], keywords=[])), at)
+            return [assign(ast.List(elts=[], ctx=ast.Load()))] + self._loops(g, [app], at)
+        if kind == "collect_set":
+            app = ast.copy_location(ast.Expr(value=ast.Call(func=ast.Attribute(value=load(), attr="add", ctx=ast.Load()), args=[g.elt], keywords=[])), at)
+            return [assign(ast.Call(func=ast.Name(id="set", ctx=ast.Load()), args=[], keywords=[]))] + self._loops(g, [app], at)
+        if kind == "fold" and single:
+            lam = extra["lambda"]
+            a, b = lam.args.args[0].arg, lam.args.args[1].arg
+            pre = []
+            if not (isinstance(g.elt, ast.Name) and g.elt.id == b):
+                pre = [ast.copy_location(ast.Assign(targets=[ast.Name(id=b, ctx=ast.Store())], value=g.elt), at)]
+            step = _Sub({a: load()}).visit(copy.deepcopy(lam.body))
+            return [assign(extra["init"])] + self._loops(g, pre + [assign(step)], at)
+        # not lowered: keep as an ordinary assignment
+        keep = copy.copy(at)
+        if isinstance(at, ast.Return):
+            return [assign(at.value)]
+        return [at]
+
+
+_lowered_plain = lowered
+
+
+def lowered(fn: ast.FunctionDef) -> ast.FunctionDef:  # noqa: F811  (conditional expressions, then reductions)
+    new = _lowered_plain(fn)
+    r = _Reducer(new)
+    new.body = r.block(new.body)
+    # conditional expressions uncovered by the hoisting
+    body = []
+    for st in new.body:
+        x = _Lower().visit(st) if not isinstance(st, (ast.FunctionDef, ast.AsyncFunctionDef, ast.ClassDef)) else st
+        body.extend(x if isinstance(x, list) else [x])
+    new.body = body
+    ast.fix_missing_locations(new)
+    return new
